@@ -172,19 +172,65 @@ def write_cases(path, cases):
                 f.write('mat %s %d %s %d %s\n' % (c[1], len(c[2]), ' '.join('0x%x' % x for x in c[2]), len(c[3]), ' '.join('0x%x' % x for x in c[3])))
 
 
+def gen_lane_model(ck, wd):
+    """regenerate LaneKernels.tla from the intrinsic code of the current tree (fallback: the committed copy)"""
+    import avx2tla
+    try:
+        text, nprod = avx2tla.generate(os.path.join(vlib.REPO, 'src'))
+        open(os.path.join(wd, 'LaneKernels.tla'), 'w').write(text)
+        ck.cov['lane_model'] = 'generated from the current tree (%d kernels)' % len(nprod)
+        return True
+    except avx2tla.ParseError as e:
+        ck.note('lane model not derived from current source (avx2tla: %s); the committed fallback copy is used, replay families still run' % e)
+        ck.cov['lane_model'] = 'fallback (generator could not parse the current tree)'
+        return False
+
+
+def lead_cases(kernels, leads):
+    """model counterexamples (pairs of lane words) as register groups for every kernel, in every lane position"""
+    out = []
+    for k in kernels:
+        L = 8 if '512' in k else 4
+        for a, b in leads:
+            for (x, y) in ((a, b), (b, a)):
+                p = fit(k, x % M, y % M)
+                for pos in range(L):
+                    g = [fit(k, (pos * 0x9E3779B97F4A7C15 + i) % M, (i * 77 + 5) % M) for i in range(L)]
+                    g[pos] = p
+                    out.append(('lane', k, g))
+    return out
+
+
 def model_lane(ck, wd, tier, apa_invs):
+    gen_lane_model(ck, wd)
+    leads = []
     for W in ([2, 3, 4] if tier == 'quick' else [2, 3, 4, 5]):
         cfg = 'MC_Lane_%d.cfg' % W
         open(os.path.join(wd, cfg), 'w').write(open(os.path.join(wd, 'MC_Lane.cfg')).read().replace('Phi = 16', 'Phi = %d' % (1 << W)))
         r = tlc(wd, 'MC_Lane', cfg, timeout=1500, tag='lane%d' % W)
         ck.add_tlc(r, 'MC_Lane W=%d: every lane operand pair, every AVX2 and AVX512 kernel under its documented assumption' % W)
         if not r.ok:
-            ck.note('model-level: MC_Lane W=%d: %s' % (W, r.violated or r.error))
+            ck.note('model-level lead: MC_Lane W=%d: %s' % (W, r.violated or r.error))
+            import re as _re
+            m = _re.search(r'/\\ a = (\d+)\s*\n/\\ b = (\d+)', r.out) or _re.search(r'/\\ b = (\d+)\s*\n/\\ a = (\d+)', r.out)
+            if m:
+                g = [int(m.group(1)), int(m.group(2))]
+                if 'b = ' in m.group(0).split('\n')[0]:
+                    g = [g[1], g[0]]
+                phi = 1 << W
+                def lift(v):
+                    def l1(h):
+                        return h if h < phi // 2 else (1 << 32) - (phi - h)
+                    return (l1(v >> W) << 32) | l1(v & (phi - 1))
+                leads.append((lift(g[0]), lift(g[1])))
     with ThreadPoolExecutor(max_workers=10) as ex:
         for inv, res in ex.map(lambda i: (i, apalache(wd, 'Apa_Lane', i, timeout=400)), apa_invs):
             ck.add_symbolic('W=32 %s (all lane contents; partial products free)' % inv, res)
             if res.status == 'violated':
-                ck.note('model-level lead: Apalache W=32 %s counterexample %s' % (inv, res.cex))
+                ck.note('model-level lead: Apalache W=32 %s counterexample %s (replayed on the library)' % (inv, res.cex))
+                if res.cex and 'a' in res.cex and 'b' in res.cex:
+                    leads.append((res.cex['a'], res.cex['b']))
+    return leads
 
 
 def replay(ck, wd, variant, cases, label, keyfn):
